@@ -472,3 +472,53 @@ def plan_c20():
 
 
 PLANS["C20"] = plan_c20()
+
+
+def plan_c18():
+    def jobs(tier, seed):
+        return [
+            {"name": "C18.panic.seq", "flavour": "native", "args": ["panic", "mode=seq", "execs=%d" % T(tier, 2500, 60000), "cap=%d" % T(tier, 8, 16)], "shards": 4, "threads": 1, "timeout": 2400},
+            {"name": "C18.panic.token", "flavour": "native", "args": ["panic", "mode=token", "execs=%d" % T(tier, 800, 30000), "cap=%d" % T(tier, 8, 16)], "shards": 4, "threads": 3, "timeout": 2400},
+            {"name": "C18.panic.token.reuse", "flavour": "native", "args": ["panic", "mode=token", "alloc=reuse", "execs=%d" % T(tier, 400, 15000)], "shards": 4, "threads": 3, "timeout": 2400},
+            {"name": "C18.panic.seq.asan", "flavour": "asan", "args": ["panic", "mode=seq", "alloc=real", "execs=%d" % T(tier, 800, 20000)], "shards": 4, "threads": 1, "timeout": 2400},
+        ]
+
+    def ev(merged, results):
+        c = merged["counters"]
+        fired = c.get("panic.fired_total", 0)
+        return {"evaluations": c.get("panic.plans_total", 0), "plans_run": c.get("panic.plans_total", 0), "plans_whose_panic_fired": fired,
+                "invocations_of_user_code_in_counting_runs": {k[len("panic.invocations."):]: v for k, v in c.items() if k.startswith("panic.invocations.")},
+                "plans_by_kind": {k[len("panic.plans."):]: v for k, v in c.items() if k.startswith("panic.plans.")},
+                "fired_by_kind": {k[len("panic.fired."):]: v for k, v in c.items() if k.startswith("panic.fired.")},
+                "directed_scenario": {k[len("panic.directed."):]: v for k, v in c.items() if k.startswith("panic.directed.")}}
+
+    def req(merged):
+        c = merged["counters"]
+        need = []
+        for k in ["rcu-closure", "into-conversion", "destructor", "projection"]:
+            if c.get("panic.fired." + k, 0) == 0:
+                need.append("no injected panic of kind " + k)
+        if c.get("panic.fired.inside_debt_walk", 0) == 0:
+            need.append("no destructor panic inside a writer's debt walk")
+        if c.get("rcu.retried", 0) == 0:
+            need.append("no rcu retry (closure panics on attempt >= 2 not covered)")
+        return need
+    return {
+        "level": "fault_enumeration",
+        "jobs": jobs,
+        "rule": ("Fault plan = (kind of user code, n): the n-th invocation of the rcu closure / the Into conversion of its result / a pointee destructor / a projection function "
+                 "(Cache::map, Map) / Constant's clone panics. For every seeded execution (single-threaded, or 2-3 TOKEN-scheduled threads, 8-16 operations each incl. rcu "
+                 "with forced retries, compare_and_swap, cache loads, guards held) a counting run establishes the number of invocations per kind; then one run per kind and "
+                 "position n (all positions up to `cap`, evenly spread beyond) is made; every operation runs under catch_unwind, the threads continue afterwards, and at the "
+                 "end the history (panicked operation left open), the conservation law, slots, control words and leaks are checked. A directed three-thread schedule "
+                 "additionally makes a helper's rejected replacement die inside a writer's debt walk. One evaluation = one plan; non-trivial = the plan's panic fired; "
+                 "distinct = distinct (schedule trace, kind, n)."),
+        "evidence": ev,
+        "required": req,
+        "assumptions": ["At most one injected panic per execution (no double panics); panics are injected in the main phase only, tear-down runs without injection.",
+                        "Whatever the monitors report after an injected panic is folded into one report naming the injection context; known findings are keyed on that text."],
+        "min_evaluations": {"quick": 2000, "thorough": 100000},
+    }
+
+
+PLANS["C18"] = plan_c18()
